@@ -70,14 +70,25 @@ func genC09(rng *rand.Rand, tier string) *sim.Plan {
 		sp.Ops = append(sp.Ops, sim.Op{K: "subscribe", C: c, Subs: []mqttc.Sub{{Filter: fmt.Sprintf("e/%d/+", c), QoS: 1}, {Filter: fmt.Sprintf("keep/%d", c), QoS: byte(rng.IntN(3))}}})
 		if chance(rng, 0.8) {
 			sp.Ops = append(sp.Ops, sim.Op{K: "unsubscribe", C: c, Filters: []string{fmt.Sprintf("e/%d/+", c)}})
-			if c == 1 && chance(rng, 0.5) {
-				// the same subscription is made through the API while the client removes it: whatever the
-				// order, the running broker and the store must agree afterwards (C09.mem_vs_store)
-				sp.Ops = append(sp.Ops, sim.Op{K: "api_subscribe", C: -3, Target: p.Clients[1].ID, Subs: []mqttc.Sub{{Filter: "e/1/+", QoS: 1}}, Delay: sim.Us(rng.IntN(300))})
-			}
 		}
 	}
 	p.Phases = append(p.Phases, sp)
+	if chance(rng, 0.6) {
+		// a phase of its own: client 1 removes (or makes again) a subscription while the same subscription is
+		// made through the API, timed to land inside the client's storage round trip: whatever the order, the
+		// running broker and the store must agree afterwards (C09.mem_vs_store)
+		var rp sim.Phase
+		if chance(rng, 0.75) {
+			rp.Ops = append(rp.Ops, sim.Op{K: "unsubscribe", C: 1, Filters: []string{"keep/1"}})
+		} else {
+			rp.Ops = append(rp.Ops, sim.Op{K: "subscribe", C: 1, Subs: []mqttc.Sub{{Filter: "keep/1", QoS: 1}}})
+		}
+		for a := 0; a < 2; a++ {
+			rp.Ops = append(rp.Ops, sim.Op{K: pick(rng, []string{"api_subscribe", "api_subscribe", "api_unsubscribe"}), C: -3 - a, Target: p.Clients[1].ID,
+				Subs: []mqttc.Sub{{Filter: "keep/1", QoS: 1}}, Filters: []string{"keep/1"}, Delay: sim.Us(rng.IntN(p.Net.LatMaxUs + 40))})
+		}
+		p.Phases = append(p.Phases, rp)
+	}
 	msg := 0
 	pubPhase := func() sim.Phase {
 		var ph sim.Phase
@@ -99,7 +110,7 @@ func genC09(rng *rand.Rand, tier string) *sim.Plan {
 		p.Phases = append(p.Phases, sim.Phase{Ops: []sim.Op{conn(1, "")}}, pubPhase())
 	}
 	p.Phases = append(p.Phases, sim.Phase{Ops: []sim.Op{{K: "api_custom", C: -2, Custom: "c09_dump"}}})
-	p.Params = map[string]string{"prefixes": "12"}
+	p.Params = map[string]string{"prefixes": "12", "redis_lat_us": fmt.Sprint(pick(rng, []int{0, 0, 30, 300}))}
 	if tier == "thorough" {
 		p.Params["prefixes"] = "all"
 	}
@@ -134,6 +145,7 @@ func runC09(tb TB, p *sim.Plan) *sim.Outcome {
 	t := tb.(*testing.T)
 	// ---- run A
 	storeA := simredis.NewServer(p.Seed)
+	fmt.Sscan(p.Params["redis_lat_us"], &storeA.ReplyLatMaxUs)
 	simredis.Install(storeA)
 	defer simredis.Install(nil)
 	a := sim.Run(t, p, c09setup(storeA))
@@ -204,7 +216,7 @@ func runC09(tb TB, p *sim.Plan) *sim.Outcome {
 					subs = append(subs, &subFact{client: o.Op.C, sub: s, granted: o.Ack.Codes[i], id: id, kAck: kOf(o.Resp), kUnsubInv: -1, kUnsubAck: -1})
 				}
 			}
-		case "api_subscribe":
+		case "api_subscribe", "api_unsubscribe":
 			for _, s := range o.Op.Subs {
 				apiTouched[o.Op.Target+"|"+s.Filter] = true
 			}
@@ -361,7 +373,9 @@ func runC09(tb TB, p *sim.Plan) *sim.Outcome {
 		// the publisher retransmits its QoS 2 publishes whose PUBREL it withheld
 		var rp sim.Phase
 		for _, pf := range pubs {
-			if pf.held && pf.kAck >= 0 && pf.kAck <= k {
+			// every other crash point the publisher behaves like a client that had seen the PUBREC: it goes on
+			// with PUBREL (phase below) without sending the PUBLISH again
+			if pf.held && pf.kAck >= 0 && pf.kAck <= k && k%2 == 0 {
 				rp.Ops = append(rp.Ops, sim.Op{K: "publish", C: 2, Topic: "d/x", QoS: 2, PID: pf.pid, Dup: true, Payload: pf.payload, HoldRel: true})
 			}
 		}
@@ -458,7 +472,7 @@ func runC09(tb TB, p *sim.Plan) *sim.Outcome {
 						found = sv
 					}
 				}
-				mustHave := sf.kAck <= k && (sf.kUnsubInv < 0 || sf.kUnsubInv > k) && connK[sf.client] <= k
+				mustHave := sf.kAck <= k && (sf.kUnsubInv < 0 || sf.kUnsubInv > k) && connK[sf.client] <= k && !apiTouched[cid+"|"+sf.sub.Filter]
 				mustNot := sf.kUnsubAck >= 0 && sf.kUnsubAck <= k && !apiTouched[cid+"|"+sf.sub.Filter]
 				if mustHave && found == nil {
 					vs = append(vs, viol("C09", "subs", "sub-lost", "%s: subscription %q of client %q (SUBACK after %d commands) is gone", where, sf.sub.Filter, cid, sf.kAck))
